@@ -324,6 +324,10 @@ def detect_param_token_rules(rule_fns):
 
 
 def run(chk, prog):
+    # the parser's nesting budget is per thread: what is accepted must not depend on what the thread refused before
+    from . import depthguard
+    depthguard.rule_balanced(chk, prog, "BUDGET", "milu", "parser.rs", 1,
+                             "after enough over-nested inputs the thread's parser rejects expressions of the documented table it accepted before")
     P = "milu::parser::"
     rule_fns = {}
     for k, f in prog.fns.items():
